@@ -289,7 +289,7 @@ def gen_jobs(tier, rng):
     q = tier == "quick"
     fam = {"sequential": [], "concurrent": [], "directed": [], "systematic": [], "stress": []}
     # seeded random sequential histories, 1..3 relations, values at both ends of the 32-bit domain
-    for k in range(80 if q else 3000):
+    for k in range(80 if q else 1200):
         nrels = rng.choice([1, 2, 2, 3])
         pool = rng.sample(EXTREME, rng.choice([3, 4, 5]))
         ops = []
@@ -313,7 +313,7 @@ def gen_jobs(tier, rng):
     # concurrent insert phases under the cooperative scheduler, 1..8 threads
     def cprog(nt, per, pool):
         return ";".join(",".join("%d:%d" % (rng.choice(pool), rng.choice(pool)) for _ in range(rng.randint(1, per))) for _ in range(nt))
-    for k in range(120 if q else 4000):
+    for k in range(120 if q else 2500):
         nt = rng.choice([1, 2, 2, 3, 3, 4, 8])
         pool = rng.sample(EXTREME, rng.choice([3, 4, 5, 6]))
         setup = ",".join("i:1:%d:%d" % (rng.choice(pool), rng.choice(pool)) for _ in range(rng.randint(0, 2))) or "-"
@@ -328,9 +328,9 @@ def gen_jobs(tier, rng):
                 fam["directed"].append("%s D%d:2:%d:3" % (prog, k1, k2))
     # systematic: every schedule with <= 2 deviations from run-to-completion (breadth first, capped)
     for prog in ("C i:1:0:2 0:3,0:0;0:3;3:3", "C - 0:1;1:2;2:0", "C i:1:0:1 0:2;1:2", "C - %d:%d;%d:%d" % (IMIN, IMAX, IMAX, IMIN)):
-        fam["systematic"].append("%s P2:%d" % (prog, 60 if q else 9000))
+        fam["systematic"].append("%s P2:%d" % (prog, 60 if q else 2500))
     # real-thread stress, 2..8 threads
-    for k in range(40 if q else 1500):
+    for k in range(40 if q else 600):
         nt = rng.choice([2, 4, 8, 8])
         pool = rng.sample(EXTREME, rng.choice([4, 6, 7])) if rng.random() < 0.7 else list(range(-3, 4))
         setup = ",".join("i:1:%d:%d" % (rng.choice(pool), rng.choice(pool)) for _ in range(rng.randint(0, 2))) or "-"
@@ -366,7 +366,7 @@ def run(tier, replay_path=None):
     for cfg, nrels in rcfgs:
         if cfg not in dots:
             continue
-        hists, lines = replay(res, wd, cfg, nrels, drv, dots[cfg], max_walks=250 if q else 8000)
+        hists, lines = replay(res, wd, cfg, nrels, drv, dots[cfg], max_walks=250 if q else 4000)
         for h in hists:
             h.update(job=lines[h["line"]], fam="replay"); allh.append(h)
     phases["R replay"] = round(time.time() - t0, 1)
@@ -387,7 +387,14 @@ def run(tier, replay_path=None):
             res.sample({"family": fname, "job": h["job"], "schedule": h["label"],
                         "events": [json.dumps(e) for e in h["events"][:10]]}, limit=12)
     t0 = time.time()
-    validate(res, wd, "MCT_EqRel", allh, kf)
+    # one TLC run per chunk of about 250 000 events (the generated data module must stay loadable)
+    chunk = []; n = 0; ci = 0
+    for h in allh:
+        chunk.append(h); n += len(h["events"]) + 1
+        if n >= 250000:
+            validate(res, wd, "MCT_EqRel%d" % ci, chunk, kf); chunk = []; n = 0; ci += 1
+    if chunk:
+        validate(res, wd, "MCT_EqRel%d" % ci, chunk, kf)
     phases["T tlc"] = round(time.time() - t0, 1)
     res.sample({"spec": "EqRelImpl.tla / EqRelAbs.tla", "configs": cfgs})
     return finish(res, "model_checking", assumptions=[
